@@ -1,0 +1,29 @@
+//go:build verif
+
+package loadbalancer
+
+// Verification hooks (build tag "verif"). Additive only: nothing here is
+// compiled into normal builds and no existing code refers to it.
+
+// VerifBackends returns the backends currently registered with the active
+// strategy, in the strategy's own order, without advancing any strategy state.
+func (lb *LoadBalancer) VerifBackends() []*Backend {
+	lb.mutex.RLock()
+	defer lb.mutex.RUnlock()
+	return lb.strategy.GetBackends()
+}
+
+// VerifJumpHash exposes the jump consistent hash step.
+func VerifJumpHash(key uint64, numBuckets int32) int32 {
+	return jumpHash(key, numBuckets)
+}
+
+// VerifCleanup runs one pass of the pool janitor synchronously.
+func (p *WebSocketPool) VerifCleanup() {
+	p.cleanup()
+}
+
+// VerifWebSocketPool returns the balancer's WebSocket pool (nil when disabled).
+func (lb *LoadBalancer) VerifWebSocketPool() *WebSocketPool {
+	return lb.wsPool
+}
